@@ -18,6 +18,7 @@ package xpkg
 
 import (
 	"compress/gzip"
+	"errors"
 	"io"
 )
 
@@ -75,7 +76,17 @@ func TeeReadCloser(r io.ReadCloser, w io.WriteCloser) io.ReadCloser {
 
 // Read calls the underlying TeeReader Read method.
 func (t *teeReadCloser) Read(b []byte) (int, error) {
-	return t.t.Read(b)
+	n, err := t.t.Read(b)
+	if err != nil && !errors.Is(err, io.EOF) {
+		// Tell the consumer of the writer (e.g. the package cache, reading
+		// the other end of a pipe) that the stream ended because of an
+		// error. Otherwise it cannot tell a truncated stream from a complete
+		// one when the writer is closed, and would keep the partial content.
+		if cw, ok := t.w.(interface{ CloseWithError(err error) error }); ok {
+			_ = cw.CloseWithError(err)
+		}
+	}
+	return n, err
 }
 
 // Close closes the underlying ReadCloser, then the Writer for the TeeReader.
